@@ -61,6 +61,48 @@ pub struct Program {
     /// everything, subscriber threads block until the end.
     pub collect: bool,
     pub threads: Vec<ThreadSpec>,
+    /// family C14T: a different kind of program (the fields above are unused: `threads` is empty)
+    #[serde(default)]
+    pub c14: Option<C14Spec>,
+}
+
+/// Writer-side operation on the limit / count observable of family C14T.
+#[derive(Clone, Debug, Serialize, Deserialize, PartialEq, Eq)]
+pub enum LOp {
+    Set(usize),
+    SetIfNotEq(usize),
+    /// write guard taken, value set through it (subscribers are notified while the lock is still
+    /// held), scheduling point, guard released
+    GuardSet(usize),
+    /// read guard held across a scheduling point (a reader contending with the consumer's polls)
+    ReadHold,
+    Yield,
+}
+
+/// Family C14T: one consumer thread drives a dynamic Head / Tail / Skip adapter over an
+/// `ObservableVector` it owns (the tokio channel is touched by that thread only), with a persistent
+/// park / unpark waker; a writer thread changes the limit observable (real eyeball code under the
+/// simulator's locks), its last operation stores `final_limit`; an optional third thread reads the
+/// observable. The consumer stops when a `Pending` poll finds the view equal to the view for
+/// `final_limit`; a lost wake-up leaves it parked for ever (deadlock).
+#[derive(Clone, Debug, Serialize, Deserialize, PartialEq, Eq)]
+pub struct C14Spec {
+    /// 0 head, 1 tail, 2 skip
+    pub kind: u8,
+    pub batched: bool,
+    /// `dynamic_*_with_initial_value(n, ..)` instead of `dynamic_*(..)`
+    pub with_initial: Option<usize>,
+    /// the limit subscriber is created with `subscribe_reset`
+    pub reset: bool,
+    pub len: usize,
+    pub first_limit: usize,
+    pub writer: Vec<LOp>,
+    pub reader: Vec<LOp>,
+    pub final_limit: usize,
+    /// every poll presents the same waker (else a fresh waker object per poll)
+    pub same_waker: bool,
+    /// polls made before the writer is started
+    pub warmup_polls: u8,
 }
 
 pub const SENTINEL: u64 = 999_999;
@@ -126,7 +168,7 @@ pub fn gen_program(prop: &str, seed: u64, index: u64) -> Program {
                 ops.push(if g.chance(1, 2) { Op::BlockUntilEndSame } else { Op::BlockUntilEnd });
                 threads.push(ThreadSpec { owners: 0, weak: false, sub: Some(g.chance(1, 3)), ops });
             }
-            Program { unique: false, initial: 1, collect: false, threads }
+            Program { unique: false, initial: 1, collect: false, threads, c14: None }
         }
         "C04" => {
             let n = 2 + g.below(3);
@@ -155,7 +197,65 @@ pub fn gen_program(prop: &str, seed: u64, index: u64) -> Program {
                 }
                 threads.push(ThreadSpec { owners: 1, weak: false, sub: has_sub.then(|| g.chance(1, 3)), ops });
             }
-            Program { unique: false, initial: 1, collect: true, threads }
+            Program { unique: false, initial: 1, collect: true, threads, c14: None }
+        }
+        "C14T" => {
+            let len = 1 + g.below(5);
+            let kind = g.below(3) as u8;
+            // Tail never gets a limit beyond the length here: lowering such a limit is known finding
+            // KF-D5 (it pops old-new items instead of len-new), which TaskSim identifies by its trigger
+            let lim = |g: &mut Gen| match g.below(6) {
+                0 => 0,
+                1 => len,
+                2 if kind != 1 => len + 1 + g.below(2),
+                _ => g.below(len + 1),
+            };
+            let first_limit = lim(&mut g);
+            let mut writer = Vec::new();
+            let mut last = first_limit;
+            for _ in 0..g.below(4) {
+                writer.push(match g.below(8) {
+                    0..=2 => {
+                        last = lim(&mut g);
+                        LOp::Set(last)
+                    }
+                    3 | 4 => {
+                        last = lim(&mut g);
+                        LOp::GuardSet(last)
+                    }
+                    5 => {
+                        last = lim(&mut g);
+                        LOp::SetIfNotEq(last)
+                    }
+                    _ => LOp::Yield,
+                });
+            }
+            // the final limit differs from the one before, so the last operation always notifies
+            let mut final_limit = lim(&mut g);
+            if final_limit == last {
+                final_limit = if last == 0 { len } else { last - 1 };
+            }
+            writer.push(if g.chance(1, 2) { LOp::GuardSet(final_limit) } else { LOp::Set(final_limit) });
+            let mut reader = Vec::new();
+            if g.chance(1, 3) {
+                for _ in 0..1 + g.below(2) {
+                    reader.push(if g.chance(1, 2) { LOp::ReadHold } else { LOp::Yield });
+                }
+            }
+            let spec = C14Spec {
+                kind,
+                batched: g.chance(1, 2),
+                with_initial: if g.chance(1, 3) { Some(lim(&mut g)) } else { None },
+                reset: g.chance(1, 2),
+                len,
+                first_limit,
+                writer,
+                reader,
+                final_limit,
+                same_waker: g.chance(1, 2),
+                warmup_polls: g.below(3) as u8,
+            };
+            Program { unique: false, initial: 0, collect: false, threads: Vec::new(), c14: Some(spec) }
         }
         "C02T" => {
             let unique = g.chance(1, 3);
@@ -197,7 +297,7 @@ pub fn gen_program(prop: &str, seed: u64, index: u64) -> Program {
                 ops.push(if g.chance(1, 2) { Op::BlockUntilEndSame } else { Op::BlockUntilEnd });
                 threads.push(ThreadSpec { owners: 0, weak: false, sub: Some(g.chance(1, 3)), ops });
             }
-            Program { unique, initial: 1, collect: false, threads }
+            Program { unique, initial: 1, collect: false, threads, c14: None }
         }
         _ => {
             // C03T: last handles dropped / upgraded concurrently
@@ -241,7 +341,7 @@ pub fn gen_program(prop: &str, seed: u64, index: u64) -> Program {
             for _ in 0..subs {
                 threads.push(ThreadSpec { owners: 0, weak: false, sub: Some(g.chance(1, 3)), ops: vec![Op::BlockUntilEnd] });
             }
-            Program { unique, initial: 1, collect: false, threads }
+            Program { unique, initial: 1, collect: false, threads, c14: None }
         }
     }
 }
